@@ -5,17 +5,18 @@
  *                    option, clears them for a false word; leaves the variable alone when the option
  *                    belongs to the other pass.  Three behaviours (.true .false .other) by the
  *                    boolean word the value spells (ghost vg_word, see env_options.h).
- *   handle_integer : target (documented type: int) = numeric reading of the value (ghost vg_num).
- *                    .range: without the assumption that the reading fits an int.
+ *   handle_integer : target (documented type: int) = numeric reading of the value (ghost vg_num) when
+ *                    it fits an int; otherwise target unchanged and exactly one bad option.
+ *                    (handle_integer: reading fits; handle_integer.range: any reading.)
  *   handle_string  : target = fresh copy of the value.
  *   handle_arglist : hasequal == 0 ("swallow the rest of the line"): fresh array of argc-i copies of
- *                    argv[i..argc-1] in order, NULL-terminated; argv[i..argc-1] cleared iff REMOVE_ARGS,
- *                    kept otherwise; other argv slots untouched.  Loop contract (annot/options.c.options.ann).
+ *                    argv[i..argc-1] in order, NULL-terminated; argv untouched (spifopt_parse removes
+ *                    the words).  Loop contract (annot/options.c.options.ann).
  *                    strdup = bump allocator over an arena (VOPT_STRDUP_ARENA, see env_options.h).
- *                    .rest: argc-i <= 65535;  .rest_wide: no such limit (16-bit counters).
+ *                    .rest: argc-i <= 65535;  .rest_wide: any argc-i.
  *                    (hasequal == 1 is the B unit arglist_eq in arglist_eq.c: its loop bound comes
- *                    from three functions of strings.c.)
- *   check_bad_wrap : CHECK_BAD at bad_opts == 255 (8-bit counter), through find_short_option.
+ *                    from functions of strings.c.)
+ *   check_bad_wrap : CHECK_BAD at bad_opts == 255: the 8-bit counter saturates; through find_short_option.
  */
 
 /*@unit
@@ -47,6 +48,7 @@ name: handle_integer
 define: U_INT, U_INT_FITS
 src: options.c
 enforce: handle_integer
+giflags: --restrict-function-pointer handle_integer.function_pointer_call.1/vopt_help
 backend: sat
 timeout: 120
 */
@@ -55,6 +57,7 @@ name: handle_integer.range
 define: U_INT
 src: options.c
 enforce: handle_integer
+giflags: --restrict-function-pointer handle_integer.function_pointer_call.1/vopt_help
 backend: sat
 timeout: 120
 */
@@ -152,14 +155,21 @@ void harness(void)
 #endif
 
 #ifdef U_INT
+#define INT_TARGET(n)  (*((int *) OPT_TAB[n].value))
+#define NUM_FITS       (INT_MIN <= vg_num && vg_num <= INT_MAX)
 static void handle_integer(spif_int32_t n, spif_charptr_t val_ptr)
-__CPROVER_requires(OPTTAB_INV && 0 <= n && n < OPT_N && __CPROVER_rw_ok((int *) OPT_TAB[n].value, sizeof(int)))
+__CPROVER_requires(OPTTAB_INV && OPT_HELP_INV && 0 <= n && n < OPT_N && __CPROVER_rw_ok((int *) OPT_TAB[n].value, sizeof(int)))
 __CPROVER_requires(VOPT_STR_OK(val_ptr, vg_n1) && vg_p1 == (const char *) val_ptr)
 #ifdef U_INT_FITS
-__CPROVER_requires(INT_MIN <= vg_num && vg_num <= INT_MAX)
+__CPROVER_requires(NUM_FITS)
 #endif
-__CPROVER_assigns(*((int *) OPT_TAB[n].value))
-__CPROVER_ensures((long) *((int *) OPT_TAB[n].value) == vg_num)
+__CPROVER_assigns(INT_TARGET(n), spifopt_settings.bad_opts, vg_help_calls)
+/* the value the command line says, nothing counted ... */
+__CPROVER_ensures(!NUM_FITS || ((long) INT_TARGET(n) == vg_num &&
+                  OPT_NO_BAD(__CPROVER_old(spifopt_settings.bad_opts), __CPROVER_old(vg_help_calls))))
+/* ... or, when it does not fit an int: variable unchanged, exactly one bad option */
+__CPROVER_ensures(NUM_FITS || (INT_TARGET(n) == __CPROVER_old(INT_TARGET(n)) &&
+                  OPT_ONE_BAD(__CPROVER_old(spifopt_settings.bad_opts), __CPROVER_old(vg_help_calls))))
 ;
 void harness(void)
 {
@@ -241,13 +251,8 @@ void harness(void)
 #endif
 
 #ifdef U_WRAP
-/* the 256th bad option */
-static spif_int32_t find_short_option(char opt)
-__CPROVER_requires(OPTTAB_INV && OPT_HELP_INV && spifopt_settings.bad_opts == 255)
-__CPROVER_requires(opt != 0)
-__CPROVER_assigns(spifopt_settings.bad_opts, vg_help_calls)
-__CPROVER_ensures(__CPROVER_return_value != -1 ||
-                  OPT_ONE_BAD(__CPROVER_old(spifopt_settings.bad_opts), __CPROVER_old(vg_help_calls)))
+/* the 256th bad option: the counter stays at 255 (OPT_ONE_BAD saturates), the help handler runs iff 255 > limit */
+static spif_int32_t find_short_option(char opt) CONTRACT_find_short_option(spifopt_settings.bad_opts == 255)
 ;
 void harness(void)
 {
